@@ -328,7 +328,7 @@ PROPS["C10"] = dict(
 _RULE_EXTRA = {
     "C01": "; 1 in 6 small tables go through the real command line instead (`wrgl commit` then `wrgl export` on a badger + SQLite repository; the exported CSV must hold the model's stored rows in order); plus one size-boundary table per run (1 044 481 rows = 4097 blocks, 8 workers), read back in aggregate",
     "C03": "; plus the size-boundary table (4097 blocks)",
-    "C05": "; 1 in 4 keyed tuples with column-changing branches (add / remove / move columns per branch, shared new names), judged by column name; 1 in 4 with an all-empty key; 1 in 20 indices carry a second case, a history through the command line (`wrgl commit` / `branch create` / 3..4 `wrgl merge` steps with --ff / --no-ff / --ff-only / default: BRANCH behind, ahead of (by one or two commits), on the same commit as, or diverged from the commit merged in; a completed merge run again; merged again after one side moved on), the table of every branch read back after every merge and judged by the merge laws on a model of the commit graph",
+    "C05": "; 1 in 4 keyed tuples with column-changing branches (add / remove / move columns per branch, shared new names), judged by column name; 1 in 4 with an all-empty key; 1 in 20 indices carry a second case, a history through the command line (`wrgl commit` / `branch create` / 3..4 `wrgl merge` steps with --ff / --no-ff / --ff-only / default: BRANCH behind, ahead of (by one or two commits), on the same commit as, or diverged from the commit merged in; a completed merge run again; merged again after one side moved on), the table of every branch read back after every merge and judged by the merge laws on a model of the commit graph; 1 in 10 indices carry the same tuple re-based on a header-only table (tag empty-base: no block, empty table index; every branch row is an addition); 1 in 10 (thorough 1 in 40) carry a case of what `wrgl merge` delivers (op merge-cli-deliver: the conflict keys and merged rows of the --no-gui CONFLICTS file, the --no-commit MERGE file, the merge commit; key in front, header-only / one-block / several-block base) on a healthy repository or with one block index / block / table index of the base or a branch deleted from the object store: whenever the command reports success the delivered rows and conflicts must be the three-way merge of the committed tables, a failure is accepted only when an object was taken away",
     "C06": "; block indices built by IndexBlock (0..5 or 255 rows, keyed or keyless): written, read, re-written, stored, fetched, compared with the Lean codec; table profiles of real ingests decoded and re-encoded (no Lean model of the profile: re-encoding clauses only); 1 in 32 a history of 2..8 Save*/Delete* calls on one store that writes keys again (same content; other content under the same table sum for table index / profile), read back after every step and dumped at the end, against the finite map of Model/ObjStore.lean; 1 in 64 a stored table whose index and profile keys hold another table's / an older profiler's / damaged / the same / no bytes, refreshed by IndexTable + ProfileTable and compared with the same refresh onto absent keys",
     "C07": "; 1 in 5 extra tables header-only; 1 table in 3 has a block (a middle one or the last) whose final row ends with an empty cell; commit times in 13 zones (whole-hour and fractional offsets on both sides of UTC); 1 case in 4 negotiated: histories of 2..8 commits with more merges, the destination asks for 1..2 commits it lacks and reports its tips (sometimes more, sometimes an unknown hash, in 1..2 rounds, depth 0..3, optionally acknowledging tables it has), the real ClosedSetsFinder picks the commit list, tables and commons that ObjectSender then sends; the transfer must succeed and leave every ancestor of the wants (tables within the depth) and nothing outside the wanted history; 1 case in 4 (and every other negotiated one): every packfile of the transfer is also delivered cut short to a copy of the destination as it was before that packfile (inside the file header, at every object boundary, at every byte of objects up to 256 bytes, at 16 bytes from either end plus 16 drawn in between of larger ones; at most about 400 cuts per case): a cut on an object boundary is accepted, any other is refused, and the copy holds exactly the complete objects before the cut, identical to the source's",
     "C08": "; 1 case in 4: the refs live in rotating namespaces (heads, tags, remote-tracking, transaction refs txs/<id>/<branch>, custom); 1 case in 5: the session continues on the same finder after a refused request (a round whose wants include a commit no ref reaches, an unknown hash or a commit without its table, alone or with a legitimate want, placed before / between / after the generated rounds): refused rounds change nothing, everything sent must be justified by the accepted wants alone",
